@@ -38,6 +38,9 @@ type AnimSpec struct {
 	// own (a tight zero-origin *image.NRGBA) and scribbles over it as soon as AddFrame has
 	// returned -- the usual render loop. The encoder must have taken what it needs.
 	Reuse bool `json:"reuse_buffer,omitempty"`
+	// ReuseRGBA: that buffer is an *image.RGBA whenever the frame's alpha is binary (so
+	// that premultiplied and straight pixels are the same thing)
+	ReuseRGBA bool `json:"reuse_rgba,omitempty"`
 }
 
 type AFrame struct {
@@ -370,6 +373,7 @@ func EncodeAnim(a AnimSpec, inputs []image.Image, wf WriteFault) *AnimEncodeResu
 		enc.SetXMP(metaBlob(a.Seed, "xmp", a.XMPLen))
 	}
 	var shared *image.NRGBA
+	var sharedRGBA *image.RGBA
 	feed := func(in image.Image) image.Image {
 		if b := in.Bounds(); !a.Reuse || b.Dx() != a.CW || b.Dy() != a.CH {
 			return in
@@ -377,13 +381,40 @@ func EncodeAnim(a AnimSpec, inputs []image.Image, wf WriteFault) *AnimEncodeResu
 		if shared == nil {
 			shared = image.NewNRGBA(image.Rect(0, 0, a.CW, a.CH))
 		}
-		copy(shared.Pix, ToNRGBA(in).Pix)
+		n := ToNRGBA(in)
+		if a.ReuseRGBA {
+			binary := true
+			for i := 3; i < len(n.Pix); i += 4 {
+				if n.Pix[i] != 0 && n.Pix[i] != 255 {
+					binary = false
+					break
+				}
+			}
+			if binary {
+				if sharedRGBA == nil {
+					sharedRGBA = image.NewRGBA(image.Rect(0, 0, a.CW, a.CH))
+				}
+				copy(sharedRGBA.Pix, n.Pix)
+				for i := 0; i < len(n.Pix); i += 4 {
+					if n.Pix[i+3] == 0 {
+						sharedRGBA.Pix[i], sharedRGBA.Pix[i+1], sharedRGBA.Pix[i+2] = 0, 0, 0
+					}
+				}
+				return sharedRGBA
+			}
+		}
+		copy(shared.Pix, n.Pix)
 		return shared
 	}
 	scribble := func() {
 		if shared != nil {
 			for i := range shared.Pix {
 				shared.Pix[i] ^= 0x5a
+			}
+		}
+		if sharedRGBA != nil {
+			for i := range sharedRGBA.Pix {
+				sharedRGBA.Pix[i] = sharedRGBA.Pix[i]>>1 + 3
 			}
 		}
 	}
